@@ -217,6 +217,9 @@ def event(ev):
 
 
 def oobs(optrace, is_bad):
+    if not optrace.get("viz_ok", True) or not optrace.get("str_ok", True):
+        # Visualize (plain, or with the error of this failed Invoke) or String panicked: dig crashed
+        return f"(mkOObs OVBug {lst([event(e) for e in optrace['events']])})"
     return f"(mkOObs {overdict(optrace['verdict'], is_bad)} {lst([event(e) for e in optrace['events']])})"
 
 
